@@ -904,6 +904,47 @@ TABLE_UNITS = [  # (property, quantity, atomman unit string, SI value of that un
 ]
 
 
+def check_table(rec, truth, out, names, pname, q, ustr, usi, header):
+    """One whitespace table against the system: ``names`` = requested properties in column order, of which
+    ``pname`` is written in unit ``ustr`` (quantity ``q``, SI value ``usi``; 'scaled' = box-relative)."""
+    natoms = truth['N']
+    try:
+        t = F.parse_table(out, header=header)
+    except F.FormatError as e:
+        rec.fail('table is well-formed', f'table:wellformed:{e.code}', error=e, head=out[:300])
+        return False
+    rec.count('monitor:table:parsed')
+    c = Checks()
+    c.add(t.values.shape[0] == natoms, 'one row per atom', 'table:rows')
+    col = 0
+    for nm in names:
+        if nm in ('atype', 'tag'):
+            exp = truth['atype'] if nm == 'atype' else truth['props']['tag']
+            c.add(bool(t.isint[:, col].all() and (t.values[:, col] == exp).all()), 'integer columns equal the system values',
+                  'table:value:int')
+            if header:
+                c.add(t.names[col] == nm, 'header names the columns', 'table:header', got=t.names)
+            col += 1
+            continue
+        val = truth['X'] if nm == 'pos' else truth['props'][nm]
+        val = val.reshape(natoms, -1)
+        w = val.shape[1]
+        got, ul = t.values[:, col:col + w], t.ulps[:, col:col + w]
+        if nm != pname:                                       # written without a unit: the numbers as held
+            c.close(got, ul, val, 1e-14, 'columns without a unit equal the system values', 'table:value:plain')
+        elif ustr == 'scaled':
+            back = got @ truth['V'] + truth['o']
+            c.close(back, ul @ np.abs(truth['V']), truth['X'], 0, 'scaled columns are box-relative coordinates', 'table:value:scaled',
+                    extra=EPS * (np.abs(truth['X']) + np.abs(truth['o']) + np.abs(got) @ np.abs(truth['V'])))
+        else:
+            f = U.working_si(q) / usi
+            c.close(got, ul, val * f, U.SLACK, 'columns equal the system values converted to the requested unit', f'table:value:{ustr}')
+        col += w
+    c.add(col == t.values.shape[1], 'table has exactly the requested columns', 'table:ncols', got=t.values.shape[1], exp=col)
+    c.emit(rec)
+    return True
+
+
 def run_table(ctx, am, tmpdir, n):
     rec = ctx.rec
     for i in ctx.cases('table', n):
@@ -935,39 +976,9 @@ def run_table(ctx, am, tmpdir, n):
         if out is None:
             rec.case(sig, nontrivial=False)
             continue
-        try:
-            t = F.parse_table(out, header=header)
-        except F.FormatError as e:
-            rec.fail('table is well-formed', f'table:wellformed:{e.code}', error=e, head=out[:300])
+        if not check_table(rec, truth, out, names, pname, q, ustr, usi, header):
             rec.case(sig, nontrivial=False)
             continue
-        rec.count('monitor:table:parsed')
-        c = Checks()
-        c.add(t.values.shape[0] == natoms, 'one row per atom', 'table:rows')
-        col = 0
-        for nm in names:
-            if nm in ('atype', 'tag'):
-                exp = truth['atype'] if nm == 'atype' else truth['props']['tag']
-                c.add(bool(t.isint[:, col].all() and (t.values[:, col] == exp).all()), 'integer columns equal the system values',
-                      'table:value:int')
-                if header:
-                    c.add(t.names[col] == nm, 'header names the columns', 'table:header', got=t.names)
-                col += 1
-                continue
-            val = truth['X'] if nm == 'pos' else truth['props'][nm]
-            val = val.reshape(natoms, -1)
-            w = val.shape[1]
-            got, ul = t.values[:, col:col + w], t.ulps[:, col:col + w]
-            if ustr == 'scaled':
-                back = got @ truth['V'] + truth['o']
-                c.close(back, ul @ np.abs(truth['V']), truth['X'], 0, 'scaled columns are box-relative coordinates', 'table:value:scaled',
-                        extra=EPS * (np.abs(truth['X']) + np.abs(truth['o']) + np.abs(got) @ np.abs(truth['V'])))
-            else:
-                f = U.working_si(q) / usi
-                c.close(got, ul, val * f, U.SLACK, 'columns equal the system values converted to the requested unit', f'table:value:{ustr}')
-            col += w
-        c.add(col == t.values.shape[1], 'table has exactly the requested columns', 'table:ncols', got=t.values.shape[1], exp=col)
-        c.emit(rec)
         rec.case(sig, nontrivial=True, fp=fingerprint(desc['pos'], sig))
         if i < 4:
             rec.sample(dict(kind='table', names=names, unit=units, file=out[:300]))
